@@ -729,8 +729,16 @@ func (e *HTTPEndpointExpr) Finalize() {
 // validateParams checks the endpoint parameters are of an allowed type and the
 // method payload contains the parameters.
 func (e *HTTPEndpointExpr) validateParams() *eval.ValidationErrors {
+	verr := new(eval.ValidationErrors)
+	if v := e.Params.Validation; v != nil {
+		for _, n := range v.Required {
+			if e.Params.Find(n) == nil {
+				verr.Add(e, "parameter %q is required but not defined", n)
+			}
+		}
+	}
 	if e.Params.IsEmpty() {
-		return nil
+		return verr
 	}
 
 	var (
@@ -747,7 +755,6 @@ func (e *HTTPEndpointExpr) validateParams() *eval.ValidationErrors {
 	invalidTypeErr := func(verr *eval.ValidationErrors, e *HTTPEndpointExpr, name string) {
 		verr.Add(e, "path parameter %s cannot be an object, path parameter types must be primitive, array or map (query string only)", name)
 	}
-	verr := new(eval.ValidationErrors)
 	WalkMappedAttr(pparams, func(name, _ string, a *AttributeExpr) error { // nolint: errcheck
 		switch {
 		case IsObject(a.Type), IsMap(a.Type), IsUnion(a.Type):
@@ -818,6 +825,20 @@ func (e *HTTPEndpointExpr) validateHeadersAndCookies() *eval.ValidationErrors {
 	cookies := DupMappedAtt(e.Cookies)
 	initAttr(headers, e.MethodExpr.Payload)
 	initAttr(cookies, e.MethodExpr.Payload)
+	if v := e.Headers.Validation; v != nil {
+		for _, n := range v.Required {
+			if e.Headers.Find(n) == nil {
+				verr.Add(e, "header %q is required but not defined", n)
+			}
+		}
+	}
+	if v := e.Cookies.Validation; v != nil {
+		for _, n := range v.Required {
+			if e.Cookies.Find(n) == nil {
+				verr.Add(e, "cookie %q is required but not defined", n)
+			}
+		}
+	}
 	WalkMappedAttr(headers, func(name, _ string, a *AttributeExpr) error { // nolint: errcheck
 		switch {
 		case IsObject(a.Type), IsUnion(a.Type):
